@@ -152,7 +152,6 @@ func (s *c20Sys) hookPort(port sim.Port, st *c20Port, onRecv func()) {
 }
 
 func c20Build(G, S, C int) *c20Sys {
-	s := &c20Sys{G: G, S: S, C: C, handlers: map[sim.Handler]string{}, nameIdx: map[string]int{}}
 	p := new(nvplatform.Platform)
 	p.Engine = sim.NewSerialEngine()
 	p.Driver = new(nvdriver.DriverBuilder).WithEngine(p.Engine).WithFreq(1 * sim.Hz).Build("Driver")
@@ -163,6 +162,12 @@ func c20Build(G, S, C int) *c20Sys {
 		p.Driver.RegisterGPU(g)
 		p.Devices = append(p.Devices, g)
 	}
+	return c20Attach(p, G, S, C)
+}
+
+// c20Attach instruments an already built platform of shape G x S x C (also the one A100PlatformBuilder builds)
+func c20Attach(p *nvplatform.Platform, G, S, C int) *c20Sys {
+	s := &c20Sys{G: G, S: S, C: C, handlers: map[sim.Handler]string{}, nameIdx: map[string]int{}}
 	s.p = p
 	s.handlers[p.Driver.TickingComponent] = "D"
 	dp := p.Driver.GetPortByName("ToDevice")
